@@ -656,11 +656,10 @@ func (tc *treeChecker) run(n *node) []*failure {
 	return tc.fails
 }
 
-func runReaderScenario(res *vk.Result, sp *space) {
+func runReaderScenario(res *vk.Result, sp *space, dl time.Time) {
 	sc := res.Scenario(sp.name)
 	sc.Bound = fmt.Sprintf("%s; %d trees; per tree: Size, every (offset,length) ReadAt incl. one past the end, sequential Read with buffers {1,2,3,size+1}, every Seek target x 3 whences then read-all, ForeachChunk", sp.bound, sp.total)
 	tc := newTreeChecker(sp)
-	dl := vk.Deadline()
 	reported := map[string]int{}
 	var knownTrees int64
 	si, sn := vk.Shard()
